@@ -98,6 +98,11 @@ pub fn run(cx: &Ctx, space: &Space, cfg: &RefCfg) -> Tally {
             } else {
                 t.count("programs_wrapped", 1);
             }
+            // The reference cuts an empty optional iteration of an unbounded repeat exactly as the
+            // VM's RepeatEpsilon instructions do (fail that iteration). So where every unbounded
+            // repeat is interpreted by the VM itself - no Delegate instruction contains an
+            // unbounded quantifier - the reference also defines the result of class-F1 cases.
+            let vm_owns_loops = engine::vm_owns_loops(&re);
             if facts.f1 {
                 t.count("programs_static_f1", 1);
             }
@@ -111,9 +116,12 @@ pub fn run(cx: &Ctx, space: &Space, cfg: &RefCfg) -> Tally {
                         continue;
                     }
                     if info.empty_iteration {
-                        // outside the reference's domain (class F1, dynamic form)
-                        t.count("skipped_f1_empty_iteration", 1);
-                        continue;
+                        if !vm_owns_loops {
+                            // outside the reference's domain (class F1, dynamic form)
+                            t.count("skipped_f1_empty_iteration", 1);
+                            continue;
+                        }
+                        t.count("compared_f1_cases_vm_rule", 1);
                     }
                     if cfg.shadow {
                         fancy_regex::verif::reset_stats();
@@ -157,7 +165,7 @@ pub fn run(cx: &Ctx, space: &Space, cfg: &RefCfg) -> Tally {
                         continue;
                     }
                     // divergence: attribute or report
-                    if facts.f1 && is_vm {
+                    if facts.f1 && is_vm && !vm_owns_loops {
                         t.known(kf::KF_F1, || {
                             jobj! {"pattern" => pattern.as_str(), "text" => text.as_str(), "pos" => pos, "expected" => outcome_json(&expected), "observed" => got.short()}
                         });
